@@ -94,17 +94,27 @@ class RRes:
         return (self.chain, self.number, self.icode)
 
 
-def from_structure3d(s3, model=None) -> List[RRes]:
+def from_structure3d(s3, model=None, merge=False) -> List[RRes]:
+    """merge=True: record blocks that carry one identity (a residue whose records are not contiguous in the file)
+    are ONE residue of the reference model, at the position of its first block"""
     out = []
+    seen = {}
     for k, r in enumerate(s3.residues):
         if model is not None and r.model != model:
             continue
-        atoms = {}
+        chain, number, icode, name = identity(r)
+        if merge and (r.model, chain, number, icode) in seen:
+            atoms = seen[(r.model, chain, number, icode)].atoms
+        else:
+            atoms = {}
         for a in r.atoms:
             if a.name not in atoms:  # find_atom semantics: first atom of a name
                 atoms[a.name] = np.array([a.x, a.y, a.z], dtype=float)
-        chain, number, icode, name = identity(r)
-        out.append(RRes(len(out), chain, number, icode, r.one_letter_name, r.model, atoms, name or ""))
+        if merge and (r.model, chain, number, icode) in seen:
+            continue
+        rr = RRes(len(out), chain, number, icode, r.one_letter_name, r.model, atoms, name or "")
+        seen[(r.model, chain, number, icode)] = rr
+        out.append(rr)
     return out
 
 
